@@ -2,6 +2,7 @@
    algebra (representative rectangular shapes, all element values). *)
 From Coq Require Import Reals Lra List.
 From Epsic Require Import Scalar SpecPauli Gen_C13 Tie_C13.
+From Epsic Require Import Tie_C13_gj3_s0 Tie_C13_gj3_s1 Tie_C13_gj3_s2 Tie_C13_gj3_s3 Tie_C13_gj3_s4 Tie_C13_gj3_s5.
 Import ListNotations.
 Local Open Scope R_scope.
 
@@ -56,6 +57,62 @@ Theorem C13_gauss_jordan_2x2 a00 a01 a10 a11 :
   Forall (fun c : Prop * bool => fst c -> (snd c = true <-> a00 * a11 - a01 * a10 = 0)) (gj2_throwcases (OO:=ROps) a00 a01 a10 a11).
 Proof. split; [apply tie_gj2 | apply tie_gj2_singular]. Qed.
 Print Assumptions C13_gauss_jordan_2x2.
+
+(* Gauss-Jordan, N = 3: for each of the 36 orders in which full pivoting can visit rows and columns (the
+   driver steers one concolic run into each; the elimination arithmetic depends on the order only), the
+   generated inverse is a two-sided inverse whenever the three pivots are non-zero *)
+Theorem C13_gauss_jordan_3x3_every_pivot_order a00 a01 a02 a10 a11 a12 a20 a21 a22 :
+  (gj3_o00_pc (OO:=ROps) a00 a01 a02 a10 a11 a12 a20 a21 a22 -> gj3_ok (gj3_o00 (OO:=ROps) a00 a01 a02 a10 a11 a12 a20 a21 a22)) /\
+  (gj3_o01_pc (OO:=ROps) a00 a01 a02 a10 a11 a12 a20 a21 a22 -> gj3_ok (gj3_o01 (OO:=ROps) a00 a01 a02 a10 a11 a12 a20 a21 a22)) /\
+  (gj3_o02_pc (OO:=ROps) a00 a01 a02 a10 a11 a12 a20 a21 a22 -> gj3_ok (gj3_o02 (OO:=ROps) a00 a01 a02 a10 a11 a12 a20 a21 a22)) /\
+  (gj3_o03_pc (OO:=ROps) a00 a01 a02 a10 a11 a12 a20 a21 a22 -> gj3_ok (gj3_o03 (OO:=ROps) a00 a01 a02 a10 a11 a12 a20 a21 a22)) /\
+  (gj3_o04_pc (OO:=ROps) a00 a01 a02 a10 a11 a12 a20 a21 a22 -> gj3_ok (gj3_o04 (OO:=ROps) a00 a01 a02 a10 a11 a12 a20 a21 a22)) /\
+  (gj3_o05_pc (OO:=ROps) a00 a01 a02 a10 a11 a12 a20 a21 a22 -> gj3_ok (gj3_o05 (OO:=ROps) a00 a01 a02 a10 a11 a12 a20 a21 a22)) /\
+  (gj3_o10_pc (OO:=ROps) a00 a01 a02 a10 a11 a12 a20 a21 a22 -> gj3_ok (gj3_o10 (OO:=ROps) a00 a01 a02 a10 a11 a12 a20 a21 a22)) /\
+  (gj3_o11_pc (OO:=ROps) a00 a01 a02 a10 a11 a12 a20 a21 a22 -> gj3_ok (gj3_o11 (OO:=ROps) a00 a01 a02 a10 a11 a12 a20 a21 a22)) /\
+  (gj3_o12_pc (OO:=ROps) a00 a01 a02 a10 a11 a12 a20 a21 a22 -> gj3_ok (gj3_o12 (OO:=ROps) a00 a01 a02 a10 a11 a12 a20 a21 a22)) /\
+  (gj3_o13_pc (OO:=ROps) a00 a01 a02 a10 a11 a12 a20 a21 a22 -> gj3_ok (gj3_o13 (OO:=ROps) a00 a01 a02 a10 a11 a12 a20 a21 a22)) /\
+  (gj3_o14_pc (OO:=ROps) a00 a01 a02 a10 a11 a12 a20 a21 a22 -> gj3_ok (gj3_o14 (OO:=ROps) a00 a01 a02 a10 a11 a12 a20 a21 a22)) /\
+  (gj3_o15_pc (OO:=ROps) a00 a01 a02 a10 a11 a12 a20 a21 a22 -> gj3_ok (gj3_o15 (OO:=ROps) a00 a01 a02 a10 a11 a12 a20 a21 a22)) /\
+  (gj3_o20_pc (OO:=ROps) a00 a01 a02 a10 a11 a12 a20 a21 a22 -> gj3_ok (gj3_o20 (OO:=ROps) a00 a01 a02 a10 a11 a12 a20 a21 a22)) /\
+  (gj3_o21_pc (OO:=ROps) a00 a01 a02 a10 a11 a12 a20 a21 a22 -> gj3_ok (gj3_o21 (OO:=ROps) a00 a01 a02 a10 a11 a12 a20 a21 a22)) /\
+  (gj3_o22_pc (OO:=ROps) a00 a01 a02 a10 a11 a12 a20 a21 a22 -> gj3_ok (gj3_o22 (OO:=ROps) a00 a01 a02 a10 a11 a12 a20 a21 a22)) /\
+  (gj3_o23_pc (OO:=ROps) a00 a01 a02 a10 a11 a12 a20 a21 a22 -> gj3_ok (gj3_o23 (OO:=ROps) a00 a01 a02 a10 a11 a12 a20 a21 a22)) /\
+  (gj3_o24_pc (OO:=ROps) a00 a01 a02 a10 a11 a12 a20 a21 a22 -> gj3_ok (gj3_o24 (OO:=ROps) a00 a01 a02 a10 a11 a12 a20 a21 a22)) /\
+  (gj3_o25_pc (OO:=ROps) a00 a01 a02 a10 a11 a12 a20 a21 a22 -> gj3_ok (gj3_o25 (OO:=ROps) a00 a01 a02 a10 a11 a12 a20 a21 a22)) /\
+  (gj3_o30_pc (OO:=ROps) a00 a01 a02 a10 a11 a12 a20 a21 a22 -> gj3_ok (gj3_o30 (OO:=ROps) a00 a01 a02 a10 a11 a12 a20 a21 a22)) /\
+  (gj3_o31_pc (OO:=ROps) a00 a01 a02 a10 a11 a12 a20 a21 a22 -> gj3_ok (gj3_o31 (OO:=ROps) a00 a01 a02 a10 a11 a12 a20 a21 a22)) /\
+  (gj3_o32_pc (OO:=ROps) a00 a01 a02 a10 a11 a12 a20 a21 a22 -> gj3_ok (gj3_o32 (OO:=ROps) a00 a01 a02 a10 a11 a12 a20 a21 a22)) /\
+  (gj3_o33_pc (OO:=ROps) a00 a01 a02 a10 a11 a12 a20 a21 a22 -> gj3_ok (gj3_o33 (OO:=ROps) a00 a01 a02 a10 a11 a12 a20 a21 a22)) /\
+  (gj3_o34_pc (OO:=ROps) a00 a01 a02 a10 a11 a12 a20 a21 a22 -> gj3_ok (gj3_o34 (OO:=ROps) a00 a01 a02 a10 a11 a12 a20 a21 a22)) /\
+  (gj3_o35_pc (OO:=ROps) a00 a01 a02 a10 a11 a12 a20 a21 a22 -> gj3_ok (gj3_o35 (OO:=ROps) a00 a01 a02 a10 a11 a12 a20 a21 a22)) /\
+  (gj3_o40_pc (OO:=ROps) a00 a01 a02 a10 a11 a12 a20 a21 a22 -> gj3_ok (gj3_o40 (OO:=ROps) a00 a01 a02 a10 a11 a12 a20 a21 a22)) /\
+  (gj3_o41_pc (OO:=ROps) a00 a01 a02 a10 a11 a12 a20 a21 a22 -> gj3_ok (gj3_o41 (OO:=ROps) a00 a01 a02 a10 a11 a12 a20 a21 a22)) /\
+  (gj3_o42_pc (OO:=ROps) a00 a01 a02 a10 a11 a12 a20 a21 a22 -> gj3_ok (gj3_o42 (OO:=ROps) a00 a01 a02 a10 a11 a12 a20 a21 a22)) /\
+  (gj3_o43_pc (OO:=ROps) a00 a01 a02 a10 a11 a12 a20 a21 a22 -> gj3_ok (gj3_o43 (OO:=ROps) a00 a01 a02 a10 a11 a12 a20 a21 a22)) /\
+  (gj3_o44_pc (OO:=ROps) a00 a01 a02 a10 a11 a12 a20 a21 a22 -> gj3_ok (gj3_o44 (OO:=ROps) a00 a01 a02 a10 a11 a12 a20 a21 a22)) /\
+  (gj3_o45_pc (OO:=ROps) a00 a01 a02 a10 a11 a12 a20 a21 a22 -> gj3_ok (gj3_o45 (OO:=ROps) a00 a01 a02 a10 a11 a12 a20 a21 a22)) /\
+  (gj3_o50_pc (OO:=ROps) a00 a01 a02 a10 a11 a12 a20 a21 a22 -> gj3_ok (gj3_o50 (OO:=ROps) a00 a01 a02 a10 a11 a12 a20 a21 a22)) /\
+  (gj3_o51_pc (OO:=ROps) a00 a01 a02 a10 a11 a12 a20 a21 a22 -> gj3_ok (gj3_o51 (OO:=ROps) a00 a01 a02 a10 a11 a12 a20 a21 a22)) /\
+  (gj3_o52_pc (OO:=ROps) a00 a01 a02 a10 a11 a12 a20 a21 a22 -> gj3_ok (gj3_o52 (OO:=ROps) a00 a01 a02 a10 a11 a12 a20 a21 a22)) /\
+  (gj3_o53_pc (OO:=ROps) a00 a01 a02 a10 a11 a12 a20 a21 a22 -> gj3_ok (gj3_o53 (OO:=ROps) a00 a01 a02 a10 a11 a12 a20 a21 a22)) /\
+  (gj3_o54_pc (OO:=ROps) a00 a01 a02 a10 a11 a12 a20 a21 a22 -> gj3_ok (gj3_o54 (OO:=ROps) a00 a01 a02 a10 a11 a12 a20 a21 a22)) /\
+  (gj3_o55_pc (OO:=ROps) a00 a01 a02 a10 a11 a12 a20 a21 a22 -> gj3_ok (gj3_o55 (OO:=ROps) a00 a01 a02 a10 a11 a12 a20 a21 a22)).
+Proof. exact (conj (tie_gj3_o00 a00 a01 a02 a10 a11 a12 a20 a21 a22) (conj (tie_gj3_o01 a00 a01 a02 a10 a11 a12 a20 a21 a22) (conj (tie_gj3_o02 a00 a01 a02 a10 a11 a12 a20 a21 a22) (conj (tie_gj3_o03 a00 a01 a02 a10 a11 a12 a20 a21 a22) (conj (tie_gj3_o04 a00 a01 a02 a10 a11 a12 a20 a21 a22) (conj (tie_gj3_o05 a00 a01 a02 a10 a11 a12 a20 a21 a22) (conj (tie_gj3_o10 a00 a01 a02 a10 a11 a12 a20 a21 a22) (conj (tie_gj3_o11 a00 a01 a02 a10 a11 a12 a20 a21 a22) (conj (tie_gj3_o12 a00 a01 a02 a10 a11 a12 a20 a21 a22) (conj (tie_gj3_o13 a00 a01 a02 a10 a11 a12 a20 a21 a22) (conj (tie_gj3_o14 a00 a01 a02 a10 a11 a12 a20 a21 a22) (conj (tie_gj3_o15 a00 a01 a02 a10 a11 a12 a20 a21 a22) (conj (tie_gj3_o20 a00 a01 a02 a10 a11 a12 a20 a21 a22) (conj (tie_gj3_o21 a00 a01 a02 a10 a11 a12 a20 a21 a22) (conj (tie_gj3_o22 a00 a01 a02 a10 a11 a12 a20 a21 a22) (conj (tie_gj3_o23 a00 a01 a02 a10 a11 a12 a20 a21 a22) (conj (tie_gj3_o24 a00 a01 a02 a10 a11 a12 a20 a21 a22) (conj (tie_gj3_o25 a00 a01 a02 a10 a11 a12 a20 a21 a22) (conj (tie_gj3_o30 a00 a01 a02 a10 a11 a12 a20 a21 a22) (conj (tie_gj3_o31 a00 a01 a02 a10 a11 a12 a20 a21 a22) (conj (tie_gj3_o32 a00 a01 a02 a10 a11 a12 a20 a21 a22) (conj (tie_gj3_o33 a00 a01 a02 a10 a11 a12 a20 a21 a22) (conj (tie_gj3_o34 a00 a01 a02 a10 a11 a12 a20 a21 a22) (conj (tie_gj3_o35 a00 a01 a02 a10 a11 a12 a20 a21 a22) (conj (tie_gj3_o40 a00 a01 a02 a10 a11 a12 a20 a21 a22) (conj (tie_gj3_o41 a00 a01 a02 a10 a11 a12 a20 a21 a22) (conj (tie_gj3_o42 a00 a01 a02 a10 a11 a12 a20 a21 a22) (conj (tie_gj3_o43 a00 a01 a02 a10 a11 a12 a20 a21 a22) (conj (tie_gj3_o44 a00 a01 a02 a10 a11 a12 a20 a21 a22) (conj (tie_gj3_o45 a00 a01 a02 a10 a11 a12 a20 a21 a22) (conj (tie_gj3_o50 a00 a01 a02 a10 a11 a12 a20 a21 a22) (conj (tie_gj3_o51 a00 a01 a02 a10 a11 a12 a20 a21 a22) (conj (tie_gj3_o52 a00 a01 a02 a10 a11 a12 a20 a21 a22) (conj (tie_gj3_o53 a00 a01 a02 a10 a11 a12 a20 a21 a22) (conj (tie_gj3_o54 a00 a01 a02 a10 a11 a12 a20 a21 a22) (tie_gj3_o55 a00 a01 a02 a10 a11 a12 a20 a21 a22)))))))))))))))))))))))))))))))))))). Qed.
+Print Assumptions C13_gauss_jordan_3x3_every_pivot_order.
+
+(* real and imaginary parts, conjugate and squared norms of complex vectors; squared norms of matrices *)
+Theorem C13_complex_vector_parts_and_norms v0r v0i v1r v1i v2r v2i :
+  complex_vector_parts (OO:=ROps) v0r v0i v1r v1i v2r v2i =
+  [v0r; v1r; v2r; v0i; v1i; v2i; v0r; - v0i; v1r; - v1i; v2r; - v2i;
+   v0r*v0r + v0i*v0i + v1r*v1r + v1i*v1i + v2r*v2r + v2i*v2i; v0r*v0r + v1r*v1r + v2r*v2r; v0r*v0r + v1r*v1r + v2r*v2r].
+Proof. apply tie_complex_vector_parts. Qed.
+Theorem C13_matrix_normsq a00 a01 a02 a10 a11 a12 b00 b01 b10 b11 b20 b21 c00r c00i c01r c01i c10r c10i c11r c11i :
+  matrix_normsq (OO:=ROps) a00 a01 a02 a10 a11 a12 b00 b01 b10 b11 b20 b21 c00r c00i c01r c01i c10r c10i c11r c11i =
+  [a00*a00 + a01*a01 + a02*a02 + a10*a10 + a11*a11 + a12*a12; b00*b00 + b01*b01 + b10*b10 + b11*b11 + b20*b20 + b21*b21;
+   c00r*c00r + c00i*c00i + c01r*c01r + c01i*c01i + c10r*c10r + c10i*c10i + c11r*c11r + c11i*c11i; 0].
+Proof. apply tie_matrix_normsq. Qed.
+Print Assumptions C13_matrix_normsq.
 
 (* scalar constructor: the scalar on the leading diagonal, zero elsewhere, also for non-square shapes *)
 Theorem C13_scalar_constructor s :
